@@ -22,6 +22,7 @@ inductive Act
   | kill
   | commit (good : Bool)
   | nested (killAt : Option Nat)
+  | orphan (nested : Bool)
   deriving Repr
 
 structure RunInfo where
@@ -42,7 +43,7 @@ def showDirBody (g : G) (d : Dir) : String :=
   let hp := match d.head with
     | some h => optNat (commitAt g.store h).pol
     | none => "-"
-  s!"{b2s (d.built)}:{hp}:{b2s (d.head == some g.remote)}"
+  s!"{b2s (d.built)}:{hp}:{b2s (d.head == some g.remote)}:{b2s (d.built && dirCodeOK g.store d)}"
 
 def insertSorted (x : Nat × Dir) : List (Nat × Dir) → List (Nat × Dir)
   | [] => [x]
@@ -89,6 +90,17 @@ partial def runPlan (s : State) (pid : Nat) (plan : List (Nat × Act)) (n : Nat)
       let rec doActs (s : State) (info : RunInfo) : List (Nat × Act) → State × RunInfo × Bool
         | [] => (s, info, false)
         | (_, .kill) :: _ => (step prog s (.kill pid), info, true)
+        | (_, .orphan nest) :: _ =>
+          -- the shell is killed while the child of this command runs (only commands with a child)
+          if !i.cmd.external then (step prog s (.kill pid), info, true) else
+          let s0 := step prog s (.killDuring pid)
+          let (s1, info) :=
+            if nest then
+              let q := s0.npid
+              let (s2, inf2) := runPlan (step prog s0 .spawn) q [] 0 {} 5000
+              (s2, { info with nested := inf2 :: info.nested })
+            else (s0, info)
+          (step prog s1 (.step pid), info, true)
         | (_, .commit g) :: rest => doActs (step prog s (.commit g none true)) info rest
         | (_, .nested k) :: rest =>
           let q := s.npid
@@ -104,6 +116,8 @@ partial def runPlan (s : State) (pid : Nat) (plan : List (Nat × Act)) (n : Nat)
 
 def parseAct (a : String) : Option Act :=
   if a == "K" then some .kill
+  else if a == "O" then some (.orphan false)
+  else if a == "On" then some (.orphan true)
   else if a == "cg" then some (.commit true)
   else if a == "cb" then some (.commit false)
   else if a == "n" then some (.nested none)
@@ -134,6 +148,9 @@ def applyEvent (s : State) (ev : String) : Option (State × String) :=
   | _ => none
 
 def answer (line : String) : String :=
+  if line == "?understood" then
+    (if NA.Gen.NewPolicy.understood then "1" else "0 " ++ NA.Gen.NewPolicy.problem)
+  else
   match line.splitOn "|" with
   | [se, evs] =>
     let rec go (s : State) (acc : List String) : List String → String
